@@ -102,11 +102,11 @@ Qed.
 Lemma Inv_if_primary (b : bool) s : Inv s -> Inv (if b then set_primary None s else s).
 Proof. destruct b; auto; apply Inv_primary. Qed.
 
-Lemma lock_rpc_noagg rk assigned rv ce loie f o s :
+Lemma lock_rpc_core_noagg rk assigned rv ce loie f o s :
   Inv s -> agg s = None -> book_ok s -> fu s = f ->
-  Inv (lock_rpc rk rk assigned rv ce loie f o s).
+  Inv (lock_rpc_core rk rk assigned rv ce loie f o s).
 Proof.
-  intros (HI & HL & HC) Ha B Hf. unfold lock_rpc.
+  intros (HI & HL & HC) Ha B Hf. unfold lock_rpc_core.
   assert (Hw : eff_lwc s rk o = 0) by (unfold eff_lwc; rewrite Ha; auto). rewrite Hw.
   replace (N.max f 0) with f by lia. simpl. rewrite Ha.
   destruct (lo_res o) as [e|] eqn:Er.
@@ -153,3 +153,8 @@ Proof.
       destruct (snd p) as [f'|]; [|discriminate]. apply andb_true_iff in Hp. destruct Hp as [H1 H2].
       apply N.eqb_eq in H1. apply memk_In in H2. split; auto. exists f'. split; auto. rewrite Efu. lia.
 Qed.
+
+Lemma lock_rpc_noagg rk assigned rv ce loie f o s :
+  Inv s -> agg s = None -> book_ok s -> fu s = f ->
+  Inv (lock_rpc rk rk assigned rv ce loie f o s).
+Proof. intros. unfold lock_rpc. apply Inv_ka. apply lock_rpc_core_noagg; auto. Qed.
